@@ -91,18 +91,28 @@ theorem Inv.callUnlock {c : Cfg} {o : Orders} {s : State} {t i : Nat} (inv : Inv
   · simp [PcOK, Epoch.callUnlock]; exact ⟨hown, hlt⟩
 
 theorem Inv.callRelease {c : Cfg} {o : Orders} {s : State} {t i : Nat} (inv : Inv c o s) (hidle : s.pc t = .idle)
-    (hown : s.own i = .held t) (hlt : s.lt i = 0) : Inv c o (callRelease s t i) := by
-  have hfv : s.fv i = none := by
-    cases h : s.fv i with
-    | none => rfl
-    | some V => have := (inv.region i V h).depth; omega
+    (hown : s.own i = .held t) : Inv c o (callRelease s t i) := by
   apply inv.quiet_pc (s' := Epoch.callRelease s t i) (t := t) (QuietMem.refl inv.wf t) <;> try rfl
   · intro t' e; rfl
   · intro t' e; simp [Epoch.callRelease, e]
   · intro i; simp [Epoch.callRelease, hidle, Pc.crAt]
   · intro i; simp [Epoch.callRelease, hidle, Pc.lkAt]
   · intro i; simp [Epoch.callRelease, hidle, Pc.lk3At]
-  · simp [PcOK, Epoch.callRelease]; exact ⟨hown, hlt, hfv⟩
+  · simp [PcOK, Epoch.callRelease]; exact hown
+
+theorem Inv.callReleaseT {c : Cfg} {o : Orders} {s : State} {t i : Nat} (inv : Inv c o s) (hidle : s.pc t = .idle)
+    (hown : s.own i = .held t) (hlt : s.lt i = 0) : Inv c o (callReleaseT s t i) := by
+  have hfv : s.fv i = none := by
+    cases h : s.fv i with
+    | none => rfl
+    | some V => have := (inv.region i V h).depth; omega
+  apply inv.quiet_pc (s' := Epoch.callReleaseT s t i) (t := t) (QuietMem.refl inv.wf t) <;> try rfl
+  · intro t' e; rfl
+  · intro t' e; simp [Epoch.callReleaseT, e]
+  · intro i; simp [Epoch.callReleaseT, hidle, Pc.crAt]
+  · intro i; simp [Epoch.callReleaseT, hidle, Pc.lkAt]
+  · intro i; simp [Epoch.callReleaseT, hidle, Pc.lk3At]
+  · simp [PcOK, Epoch.callReleaseT]; exact ⟨hown, hlt, hfv⟩
 
 theorem Inv.callTick {c : Cfg} {o : Orders} {s : State} {t : Nat} (inv : Inv c o s) (hidle : s.pc t = .idle) :
     Inv c o (callTick s t) := by
